@@ -10,6 +10,8 @@ import time
 CVC5 = "/usr/bin/cvc5"
 Z3 = "z3-new"
 
+LATE_AFTER = 3.0
+
 WORKDIR = os.path.join(os.path.dirname(os.path.dirname(os.path.abspath(__file__))), ".work")
 
 
@@ -39,7 +41,7 @@ def solve_text(text, name, budget, need="unsat", both=False, backends=("z3", "cv
     """need='unsat' for validity obligations (text contains the negated goal), 'sat' for covers.
     status: discharged | refuted | unknown | conflict.  With both=True wait for both answers."""
     os.makedirs(WORKDIR, exist_ok=True)
-    safe = "".join(c if c.isalnum() or c in "._-" else "_" for c in name)[-60:]
+    safe = "".join(c if c.isalnum() or c in "._-" else "_" for c in name)[-60:].lstrip(".")
     fd, path = tempfile.mkstemp(prefix=safe + "_", suffix=".smt2", dir=WORKDIR)
     # z3's simplifier splits seq.nth into internal seq.nth_i (in bounds) / seq.nth_u (out of bounds,
     # an unspecified function of (s, i)); both are instances of SMT-LIB's total seq.nth.
@@ -50,6 +52,9 @@ def solve_text(text, name, budget, need="unsat", both=False, backends=("z3", "cv
         "z3": [Z3, f"-T:{max(1, int(budget))}", path],
         "cvc5": [CVC5, "--strings-exp", f"--tlimit={int(budget * 1000)}", path],
     }
+    # the sequence solvers are unstable on identical input (same query: 0.05 s with one random seed, > 25 s with
+    # another): when nothing has answered after a few seconds, further z3 instances with other seeds join the race
+    late = {f"z3#{k}": [Z3, f"smt.random_seed={k}", f"sat.random_seed={k}", f"-T:{max(1, int(budget))}", path] for k in (1, 2, 3)} if "z3" in backends and budget >= 10 else {}
     procs = {}
     t0 = time.time()
     for b in backends:
@@ -61,6 +66,10 @@ def solve_text(text, name, budget, need="unsat", both=False, backends=("z3", "cv
     deadline = t0 + budget + 3
     try:
         while procs and time.time() < deadline:
+            if late and time.time() - t0 > LATE_AFTER:
+                for b, cmd in late.items():
+                    procs[b] = subprocess.Popen(cmd, stdout=subprocess.PIPE, stderr=subprocess.PIPE, text=True)
+                late = {}
             for b, p in list(procs.items()):
                 rc = p.poll()
                 if rc is not None:
@@ -85,11 +94,11 @@ def solve_text(text, name, budget, need="unsat", both=False, backends=("z3", "cv
     vals = set(answers.values())
     if need in vals and other in vals:
         return Result("conflict", "both", time.time() - t0, str(outs), path, answers)
-    for b in backends:
+    for b in answers:
         if answers.get(b) == need:
             os.unlink(path)
-            return Result("discharged", b, times[b], "", None, answers)
-    for b in backends:
+            return Result("discharged", b.split("#")[0], times[b], "", None, answers)
+    for b in answers:
         if answers.get(b) == other:
-            return Result("refuted", b, times[b], outs.get(b, ""), path, answers)
+            return Result("refuted", b.split("#")[0], times[b], outs.get(b, ""), path, answers)
     return Result("unknown", "none", time.time() - t0, str({b: (answers[b], outs.get(b, "")[:200]) for b in answers}), path, answers)
